@@ -1,2 +1,2 @@
--- stub: replaced by the real driver for model Emit (imports Pyrtma.Drv.Emit)
-def main : IO Unit := pure ()
+import Pyrtma.Drv.Emit
+def main : IO Unit := Pyrtma.Drv.Emit.main
